@@ -14,7 +14,8 @@ _io_note = ('assumed I/O contract (CPython): pickle_dump to a dead reader raises
 _pickle_dump = FnSpec('pickle_dump', params=[('data', None), ('file', ANY), ('protocol', ANY)], ret=None,
                       raises=['BrokenPipeError'], effects=['io.write'], assumed=True, note=_io_note)
 _pickle_load = FnSpec('pickle_load', params=[('file', ANY)], ret=Tup(BOOL, ANY, Obj('Reply')),
-                      raises=['EOFError', 'UnpicklingError'], effects=['io.read'], assumed=True, note=_io_note)
+                      raises=['EOFError', 'UnpicklingError'], effects=['io.read'], assumed=True, note=_io_note,
+                      ensures=['result == next_reply(file)'])
 
 
 def _replay_send(inp):
@@ -65,8 +66,12 @@ _send = Contract(
     params={'self': _CS, 'inference_state_id': ANY, 'function': ANY, 'args': ANY, 'kwargs': ANY},
     families=['CS', 'Proc', 'Stream', 'Bytes', 'Reply'],
     names={'pickle_dump': _pickle_dump, 'pickle_load': _pickle_load},
-    raises={'InternalError': None, 'Raised[Reply]': None},
-    ensures=['not old(self.is_crashed)', 'not self.is_crashed'],
+    raises={'InternalError': None, 'Raised[Reply]': 'next_reply(self._get_process().stdout)[0]'},
+    ret=Obj('Reply'),
+    ensures=['not old(self.is_crashed)', 'not self.is_crashed',
+             # the reply of the helper is what the caller gets (exception replies are raised, never returned)
+             'result == next_reply(self._get_process().stdout)[2]',
+             'not next_reply(self._get_process().stdout)[0]'],
     ensures_exc=[
         'implies(exc_class == "InternalError", self.is_crashed)',
         'implies(exc_class == "InternalError" and not old(self.is_crashed), "cleanup" in EFFECTS)',
@@ -99,7 +104,8 @@ _run = Contract(
     requires=['callable(function)'],
     invariants={0: ['True']},
     loop_modifies={0: [('CS', '_inference_state_deletion_queue'), ('CS', 'is_crashed')]},
-    ensures=['len(self._inference_state_deletion_queue) == 0'],
+    ensures=['len(self._inference_state_deletion_queue) == 0',
+             'result == self._ghost_last_reply'],      # the answer to the request itself, not to a deletion
     raises={'InternalError': None, 'Raised[Reply]': None},
 )
 
@@ -121,7 +127,7 @@ _dunder_del = Contract(
 )
 
 FAMILIES = [
-    Family('CS', fields={'is_crashed': BOOL, '_inference_state_deletion_queue': Seq(ANY)},
+    Family('CS', fields={'is_crashed': BOOL, '_inference_state_deletion_queue': Seq(ANY), '_ghost_last_reply': ANY},
            attrs={'_executable': ANY, '_stderr_queue': ANY},
            methods={
                '_get_process': FnSpec('CS._get_process', ret=Obj('Proc'), pure=True, assumed=True,
@@ -133,11 +139,16 @@ FAMILIES = [
                '_send': FnSpec('CS._send', params=[('inference_state_id', ANY), ('function', None), ('args', ANY),
                                                    ('kwargs', ANY)],
                                defaults={'args': (), 'kwargs': None}, ret=ANY,
-                               raises=['InternalError', 'Raised[Reply]'], modifies=[('CS', 'is_crashed')],
-                               effects=['send'], assumed=False),
+                               raises=['InternalError', 'Raised[Reply]'],
+                               modifies=[('CS', 'is_crashed'), ('CS', '_ghost_last_reply')],
+                               ensures=['result == self._ghost_last_reply'],
+                               effects=['send'], assumed=False,
+                               note='ghost field _ghost_last_reply names the reply of the latest request'),
                'run': FnSpec('CS.run', params=[('inference_state_id', ANY), ('function', ANY), ('args', ANY),
                                                ('kwargs', ANY)], ret=ANY, raises=['InternalError', 'Exception'],
-                             modifies=[('CS', 'is_crashed'), ('CS', '_inference_state_deletion_queue')],
+                             modifies=[('CS', 'is_crashed'), ('CS', '_inference_state_deletion_queue'),
+                                       ('CS', '_ghost_last_reply')],
+                             ensures=['result == self._ghost_last_reply'],
                              effects=['run'], assumed=False, note='C14.run'),
                'delete_inference_state': FnSpec('CS.delete_inference_state', params=[('id', ANY)], ret=None,
                                                 effects=['enqueue-delete'],
@@ -189,6 +200,7 @@ _wrapper = Contract(
     file='jedi/inference/compiled/subprocess/__init__.py', qualname='InferenceStateSubprocess.__getattr__.wrapper',
     params={'args': ANY, 'kwargs': ANY}, free={'self': Obj('ISS'), 'func': ANY}, families=['ISS', 'CS'],
     ensures_all=['self._used'],
+    ensures=['result == self._convert_access_handles(self._compiled_subprocess._ghost_last_reply)'],
     witness={}, replay=_replay_wrapper, concrete_only=True,
     witness_library=[{'helper_raises': True}, {'helper_raises': False}],
     concrete_ensures=['USED and RELEASED'],
@@ -199,6 +211,8 @@ CONTRACTS = [_send, _kill, _run, _del_state, _dunder_del, _wrapper]
 
 def register(reg):
     reg.add_exception('Raised[Reply]', ('Exception',))
+    reg.names['next_reply'] = FnSpec('next_reply', params=[('file', ANY)], ret=Tup(BOOL, ANY, Obj('Reply')), pure=True,
+                                     assumed=True, note='ghost: the reply triple the helper wrote for this request')
     reg.names['_add_stderr_to_debug'] = FnSpec('_add_stderr_to_debug', params=[('q', ANY)], ret=None, assumed=True,
                                                note='debug output only')
     reg.names['PICKLE_PROTOCOL'] = 4
